@@ -39,7 +39,13 @@ fn ag(c: char) -> Ev {
 }
 
 fn build_units(full: bool) -> Vec<Unit> {
-    let bases: Vec<(char, &str)> = if full { vec![('k', "ka"), ('r', "ra")] } else { vec![('k', "ka")] };
+    // bases: a consonant key; (full set) a conjunct typed by ONE key (AltGr+K = kkha, a value of three code points with an
+    // inner hasanta) and a key whose value ends in a hasanta followed by a consonant (AltGr+c = ka + hasanta, then ta)
+    let bases: Vec<(Vec<Ev>, &str)> = if full {
+        vec![(vec![k('k')], "ka"), (vec![k('r')], "ra"), (vec![ag('K')], "kkha-by-one-key"), (vec![ag('c'), k('f')], "ka+H(one key)+ta")]
+    } else {
+        vec![(vec![k('k')], "ka")]
+    };
     // joins: (keys, label)
     let joins: Vec<(Vec<Ev>, &str)> = vec![
         (vec![k('/'), k('f')], "+H+ta"),
@@ -73,12 +79,16 @@ fn build_units(full: bool) -> Vec<Unit> {
         (vec![], vec![k('u')], vec![k('u')], "+u"),
     ];
     let mut units = vec![];
-    for (b, bl) in &bases {
+    for (bi, (b, bl)) in bases.iter().enumerate() {
         for (js, jl) in &join_seqs {
+            // the one-key conjunct bases come without further joins (they are about the value, not the conjunct grammar)
+            if bi >= 2 && !js.is_empty() {
+                continue;
+            }
             for (pre, post, uni, sl) in &signs {
                 for chandra in [false, true] {
                     for reph in [false, true] {
-                        let mut cluster = vec![k(*b)];
+                        let mut cluster = b.clone();
                         cluster.extend(js.clone());
                         let tail: Vec<Ev> = if chandra { vec![k('>')] } else { vec![] };
                         let mk = |sign_first: &Vec<Ev>, sign_last: &Vec<Ev>, reph_on: bool| -> Vec<Ev> {
